@@ -56,6 +56,8 @@ def level_patterns(sizes, placement=0, complex_levels=False):
         if placement == 1:  # fixed derangement: block order != energy order
             pool = pool[1:] + pool[:1] if nlev > 1 else pool
             pool = pool[::-1] if nlev > 2 else pool
+        elif placement == 2:  # the zero level comes last (a vanishing H_0 block in last position)
+            pool = pool[1:] + pool[:1]
         E = []
         lvl = 0
         for blk, part in zip(sizes, combo):
